@@ -89,6 +89,8 @@ func init() {
 	addMutants(
 		mutant{Name: "generic-instantiation-error-shadowed", Prop: "C12", File: "interp/cfg.go", Old: "\t\t\t\tvar g *node\n\t\t\t\tvar found bool\n\t\t\t\tg, found, err = genAST(sc, fun, lt)", New: "\t\t\t\tg, found, err := genAST(sc, fun, lt)", Rule: "R12.5", Key: "Interpreter.cfg/shadow:genAST"},
 		mutant{Name: "typeassert-error-shadowed", Prop: "C12", File: "interp/cfg.go", Old: "\t\t\terr = check.typeAssertionExpr(c0, c1.typ)\n\t\t\tif err != nil {\n\t\t\t\tbreak\n\t\t\t}", New: "\t\t\tif err := check.typeAssertionExpr(c0, c1.typ); err != nil {\n\t\t\t\tbreak\n\t\t\t}", Rule: "R12.5", Key: "Interpreter.cfg/shadow:typecheck.typeAssertionExpr"},
+		mutant{Name: "assign-error-break-leaves-switch-only", Prop: "C12", File: "interp/cfg.go", Old: "\t\t\t\terr = check.assignExpr(n, dest, src)\n\t\t\t\tif err != nil {\n\t\t\t\t\tbreak\n\t\t\t\t}\n\n\t\t\t\tif updateSym {", New: "\t\t\t\tswitch err = check.assignExpr(n, dest, src); {\n\t\t\t\tcase err != nil:\n\t\t\t\t\tbreak\n\t\t\t\tcase updateSym:", Rule: "R12.3", Key: "Interpreter.cfg/overwrite:typecheck.assignExpr=>typecheck.assignExpr"},
+		mutant{Name: "line-reset-clears-function-breakpoints", Prop: "C19", File: "interp/debugger.go", Old: "\t\t\t\tn.setBreakOnLine(false)\n", New: "\t\t\t\tn.setBreakOnLine(false)\n\t\t\t\tn.setBreakOnCall(false)\n", Rule: "R19.7", Key: "SetBreakpoints/flag:breakOnCall"},
 		mutant{Name: "for5-cond-check-dropped", Prop: "C12", File: "interp/cfg.go", Old: "\t\t\tcond, post, body := n.child[0], n.child[1], n.child[2]\n\t\t\tif !isBool(cond.typ) {\n\t\t\t\terr = cond.cfgErrorf(\"non-bool used as for condition\")\n\t\t\t}\n", New: "\t\t\tcond, post, body := n.child[0], n.child[1], n.child[2]\n", Rule: "R12.5", Key: "cfg/case:forStmt5/cond-is-bool"},
 	)
 }
@@ -181,10 +183,25 @@ func init() {
 		mutant{Name: "cycle-mark-after-readdir", Prop: "C16", File: "interp/src.go", Old: "\tinterp.rdir[importPath] = true\n\n\tfiles, err := fs.ReadDir(interp.opt.filesystem, dir)\n\tif err != nil {\n\t\treturn \"\", err\n\t}\n", New: "\tfiles, err := fs.ReadDir(interp.opt.filesystem, dir)\n\tif err != nil {\n\t\treturn \"\", err\n\t}\n\tdefer func() { interp.rdir[importPath] = true }()\n", Rule: "R16.1", Key: "importSrc/cycle-mark"},
 		mutant{Name: "gopath-before-vendor", Prop: "C16", File: "interp/src.go", Old: "\trPath := filepath.Join(root, \"vendor\")\n\tdir := filepath.Join(goPath, \"src\", rPath, importPath)\n\n\tif _, err := fs.Stat(interp.opt.filesystem, dir); err == nil {\n\t\treturn dir, rPath, nil // found!\n\t}\n\n\tdir = filepath.Join(goPath, \"src\", effectivePkg(root, importPath))\n\n\tif _, err := fs.Stat(interp.opt.filesystem, dir); err == nil {\n\t\treturn dir, root, nil // found!\n\t}\n", New: "\tdir := filepath.Join(goPath, \"src\", effectivePkg(root, importPath))\n\n\tif _, err := fs.Stat(interp.opt.filesystem, dir); err == nil {\n\t\treturn dir, root, nil // found!\n\t}\n\n\trPath := filepath.Join(root, \"vendor\")\n\tdir = filepath.Join(goPath, \"src\", rPath, importPath)\n\n\tif _, err := fs.Stat(interp.opt.filesystem, dir); err == nil {\n\t\treturn dir, rPath, nil // found!\n\t}\n", Rule: "R16.2", Key: "pkgDir/vendor-first"},
 		mutant{Name: "readfile-from-disk", Prop: "C16", File: "interp/src.go", Old: "if buf, err = fs.ReadFile(interp.opt.filesystem, name); err != nil {", New: "if buf, err = os.ReadFile(name); err != nil {", Rule: "R16.3", Key: "Interpreter.importSrc/filesystem"},
+		mutant{Name: "yaegi-tags-loop-breaks-on-known-tag", Prop: "C17", File: "interp/build.go", Old: "\t\t\t\tif !contains(ctx.BuildTags, tag) {\n\t\t\t\t\tctx.BuildTags = append(ctx.BuildTags, tag)\n\t\t\t\t}\n", New: "\t\t\t\tif contains(ctx.BuildTags, tag) {\n\t\t\t\t\tbreak\n\t\t\t\t}\n\t\t\t\tctx.BuildTags = append(ctx.BuildTags, tag)\n", Rule: "R17.6", Key: "setYaegiTags/tag-loop#1/complete"},
+		mutant{Name: "comment-group-skipped-unless-it-starts-with-build", Prop: "C17", File: "interp/build.go", Old: "\t\t// in file, evaluate the AND of multiple line build constraints\n", New: "\t\tif !strings.HasPrefix(strings.TrimSpace(g.Text()), \"+build \") {\n\t\t\tcontinue\n\t\t}\n", Rule: "R17.6", Key: "Interpreter.buildOk/group-loop#1/no-text-based-skip"},
+		mutant{Name: "benign-empty-comment-group-skipped", Prop: "C17", File: "interp/build.go", Old: "\t\t// in file, evaluate the AND of multiple line build constraints\n", New: "\t\tif strings.TrimSpace(g.Text()) == \"\" {\n\t\t\tcontinue\n\t\t}\n", Benign: true},
+		mutant{Name: "binary-direct-store-under-compound-assign", Prop: "C02", File: "interp/cfg.go", Old: "\t\t\tcase n.anc.kind == assignStmt && n.anc.action == aAssign && n.anc.nleft == 1:\n", New: "\t\t\tcase n.anc.kind == assignStmt && n.anc.nleft == 1:\n", Rule: "R02.7", Key: "cfg/case:binaryExpr/direct-store:n<-dest#1"},
+		mutant{Name: "call-direct-store-under-compound-assign", Prop: "C02", File: "interp/cfg.go", Old: "\t\t\t\tcase n.action != aAssign:\n", New: "\t\t\t\tcase n.action != aAssign && !isCall(src):\n", Rule: "R02.7", Key: "cfg/case:assignStmt/direct-store:src<-dest#1"},
+		mutant{Name: "benign-direct-store-guard-reordered", Prop: "C02", File: "interp/cfg.go", Old: "\t\t\tcase n.anc.kind == assignStmt && n.anc.action == aAssign && n.anc.nleft == 1:\n", New: "\t\t\tcase n.anc.nleft == 1 && n.anc.action == aAssign && n.anc.kind == assignStmt:\n", Benign: true},
+		mutant{Name: "wrapper-receiver-aliased-not-copied", Prop: "C05", File: "interp/run.go", Old: "\t\t\t\tcase sk == reflect.Ptr && dk != reflect.Ptr:\n\t\t\t\t\tdest.Set(src.Elem())\n", New: "\t\t\t\tcase sk == reflect.Ptr && dk != reflect.Ptr:\n\t\t\t\t\td[numRet] = src.Elem()\n", Rule: "R05.2", Key: "genFunctionWrapper/newFrame#1/slots-fresh"},
+		mutant{Name: "callee-argument-slot-aliases-caller-value", Prop: "C08", File: "interp/run.go", Old: "\t\t\t\t\tdest[i].Set(val)\n\t\t\t\t}\n\t\t\t}\n\t\t}\n\n\t\t// Execute function body", New: "\t\t\t\t\tdest[i] = val\n\t\t\t\t}\n\t\t\t}\n\t\t}\n\n\t\t// Execute function body", Rule: "R08.2", Key: "call/newFrame#1/slots-fresh"},
+		mutant{Name: "own-methods-recorded-before-promoted-ones", Prop: "C05", File: "interp/type.go", Old: "\t\t// Get all methods defined on this type.\n\t\tfor _, m := range typ.method {\n\t\t\tres[m.ident] = m.typ.TypeOf().String()\n\t\t}\n\t\treturn res", New: "\t\treturn res",
+			More: [][2]string{{"\t\tseen[typ] = true\n\n\t\tswitch typ.cat {\n\t\tcase linkedT:\n\t\t\tfor k, v := range getMethods(typ.val) {", "\t\tseen[typ] = true\n\t\tfor _, m := range typ.method {\n\t\t\tres[m.ident] = m.typ.TypeOf().String()\n\t\t}\n\n\t\tswitch typ.cat {\n\t\tcase linkedT:\n\t\t\tfor k, v := range getMethods(typ.val) {"}}, Rule: "R05.3", Key: "itype.methods/own-methods-shadow-promoted"},
+		mutant{Name: "map-literal-keys-not-dependencies", Prop: "C15", File: "interp/cfg.go", Old: "\t\t\tif n.anc.kind == selectorExpr && childPos(n) == 1 {\n\t\t\t\treturn false\n\t\t\t}\n\t\t\tsym := n.sym\n", New: "\t\t\tif n.anc.kind == selectorExpr && childPos(n) == 1 {\n\t\t\t\treturn false\n\t\t\t}\n\t\t\tif n.anc.kind == keyValueExpr && childPos(n) == 0 {\n\t\t\t\treturn false\n\t\t\t}\n\t\t\tsym := n.sym\n", Rule: "R15.5", Key: "getVarDependencies/skip:keyValueExpr"},
 		// ---- C18
 		mutant{Name: "var-bound-by-value-in-generator", Prop: "C18", File: "extract/extract.go", Old: "\t\t\tval[name] = Val{pname, true}", New: "\t\t\tval[name] = Val{pname, false}", Rule: "R18.2", Key: "genContent/addr-only-for-vars"},
 		mutant{Name: "template-forwards-wrong-field", Prop: "C18", File: "extract/extract.go", Old: "\t\t\t{{- $m.Ret}} W.W{{$m.Name}}{{$m.Arg -}}", New: "\t\t\t{{- $m.Ret}} W.{{$m.Name}}{{$m.Arg -}}", Rule: "R18.3", Key: "model/wrapper-method"},
 		mutant{Name: "generic-func-not-skipped", Prop: "C18", File: "extract/extract.go", Old: "\t\t\tif s := o.Type().(*types.Signature); s.TypeParams().Len() > 0 || s.RecvTypeParams().Len() > 0 {\n\t\t\t\tcontinue\n\t\t\t}\n", New: "", Rule: "R18.2", Key: "genContent/generic-func-skipped"},
+		mutant{Name: "string-const-printed-truncated", Prop: "C18", File: "extract/extract.go", Old: "\t\ttok = \"STRING\"\n\t\tstr = val.ExactString()\n", New: "\t\ttok = \"STRING\"\n\t\tstr = val.String()\n", Rule: "R18.5", Key: "fixConst/String"},
+		mutant{Name: "benign-int-const-printed-with-String", Prop: "C18", File: "extract/extract.go", Old: "\t\ttok = \"INT\"\n\t\tstr = val.ExactString()\n", New: "\t\ttok = \"INT\"\n\t\tstr = val.String()\n", Benign: true},
+		mutant{Name: "benign-string-const-requoted", Prop: "C18", File: "extract/extract.go", Old: "\t\ttok = \"STRING\"\n\t\tstr = val.ExactString()\n", New: "\t\ttok = \"STRING\"\n\t\tstr = strconv.Quote(constant.StringVal(val))\n", Benign: true},
+		mutant{Name: "variadic-mark-overwritten-by-default-name", Prop: "C18", File: "extract/extract.go", Old: "\t\t\t\t\t\t\targs[j] += \"...\"\n", New: "\t\t\t\t\t\t\targs[j] += \"...\"\n\t\t\t\t\t\t\tif v.Name() == \"\" {\n\t\t\t\t\t\t\t\targs[j] = fmt.Sprintf(\"a%d\", j)\n\t\t\t\t\t\t\t}\n", Rule: "R18.6", Key: "genContent/variadic-mark#1/last-write"},
 		// ---- C19
 		mutant{Name: "debugger-writes-frame-data", Prop: "C19", File: "interp/debugger.go", Old: "\tf.debug.g.fDepth--\n", New: "\tf.debug.g.fDepth--\n\tif len(f.data) > 0 {\n\t\tf.data[0] = reflect.Value{}\n\t}\n", Rule: "R19.1", Key: "(*Debugger).exitCall/stores"},
 		mutant{Name: "step-over-skips-breakpoints", Prop: "C19", File: "interp/debugger.go", Old: "\tcase n.shouldBreak():\n\t\te.reason = DebugBreak\n\n\tcase g.mode == debugRun:\n\t\treturn false\n", New: "\tcase g.mode == debugRun:\n\t\tif !n.shouldBreak() {\n\t\t\treturn false\n\t\t}\n\t\te.reason = DebugBreak\n", Rule: "R19.3", Key: "Debugger.exec/breakpoint-before-shortcuts"},
